@@ -1,6 +1,8 @@
 (* C12 — bookkeeping of measure_single_shot / weak simulation: the integer key of an outcome string.
    (The probabilistic content — the conditional weights of the site-by-site chain — is LinAlg/TT.v.)  Definitions only. *)
-From Coq Require Import List Arith.
+From Coq Require Import List Arith ZArith.
 Import ListNotations.
 (* sum(c << i for i, c in enumerate(bitstring)) *)
 Fixpoint encode (bits : list nat) : nat := match bits with [] => 0 | c :: r => c + 2 * encode r end.
+(* the same key as a binary integer: Python integers are unbounded, registers of 64 and more sites are evaluated with this one *)
+Fixpoint encodeZ (bits : list nat) : Z := match bits with [] => 0%Z | c :: r => (Z.of_nat c + 2 * encodeZ r)%Z end.
